@@ -5,6 +5,9 @@ CONSTANTS
   EmitUnlocked = TRUE
   StallFire = FALSE
   FixedTimer = TRUE
+  Split = FALSE
+  PeekStop = TRUE
+  WireGaps = FALSE
 SPECIFICATION Spec
 INVARIANTS NoPanic NoStateClobber ExactlyOneEOFLast TimingExact
 CHECK_DEADLOCK TRUE
